@@ -15,6 +15,10 @@ CHECKS = {
          "For all 96 operations, generated typed outputs (plus 0-3 extra headers, optional status override) returned by a scripted backend are decoded by aws-sdk-s3 and must equal what was returned; wire status must be the model's code (206 with Content-Range) or the override; extra headers must be on the wire. CompleteMultipartUpload is run on a paused tokio clock for every completion delay 0..220 ms (thorough 0..450) x {ok, late error}: body = declaration, whitespace only, the same document as the undelayed run; header-bound members in declared trailers; late errors as <Error> documents.",
          "Trusted: aws-sdk-s3 as decoder, Smithy model for status codes/bindings, tokio's paused clock. Number/timing of whitespace frames not asserted.",
          "DESIGN.md §4 C03"),
+ "C13": ("proptest-driven search over all XML codec types read from the tree: round-trip oracle, metamorphic XML-equivalent rewrites, structural mutation with a retraction (re-encode and compare infosets) oracle against an independent tokenizer",
+         "For each of the 255 types having both an encoder and a decoder: generated values (full XML-carriable Unicode, markup, whitespace) round-trip and encode to documents an independent tokenizer (xmlparser) accepts; one XML-equivalent rewrite (CDATA, character references, comments/PIs, empty-tag form, whitespace, declaration, quoting) must decode to the same value or be refused; after one structural mutation or noise edit, whatever the decoder accepts must be well-formed and fully accounted for by the accepted value (canon(encode(v')) == canon(d)); no panic.",
+         "Trusted: xmlparser as independent XML reader, the harness' infoset canonicaliser and tolerant leaf relation. Attributes, DOCTYPE and mixed content of element-only types are stated don't-cares. Interop with an independent S3 client is covered by C02/C03.",
+         "DESIGN.md §4 C13"),
  "C20": ("exhaustive enumeration of (pattern,string) pairs + proptest-driven random search against a dynamic-programming reference; JSON round-trip and out-of-grammar mutation oracle",
          "Exhaustive agreement with a DP reference matcher on all patterns over {a,b,*,?} up to length 6 (thorough: 7) x strings over {a,b} up to length 6 (thorough: 8); random longer/Unicode pairs and pattern sets; generated Policy values round-trip through JSON; mutated documents outside the IAM grammar must be refused.",
          "Trusted: the DP reference (validated against a naive recursive matcher at start-up), serde_json as the JSON reader/writer. Characters are Unicode scalars.",
